@@ -8,7 +8,7 @@ ID = "C17"
 RULE = ("histories of mapping operations (construction from mapping/pairs/kwargs incl. colliding case variants, [] get/set/del, in, get, pop(+-default), "
         "popitem, setdefault, update(mapping/pairs/kwargs), copy, fromkeys, |, |=, reflected |, ==/!=, keys/values/items, has_key, sorted_keys) on "
         "CaselessDict, Parameters, Component, Event, Calendar, vRecur; exhaustive over a reduced operation alphabet up to length 3 (thorough 4), seeded "
-        "random histories up to length 40 over a 16-key set with case variants, bytes keys and sharp-s/dotless-i; after every operation the result, the "
+        "random histories up to length 40 over a key set with case variants, bytes keys (ASCII and UTF-8 with cased non-ASCII letters) and sharp-s/dotless-i; after every operation the result, the "
         "exception kind, the stored keys (upper-case str), the item order and equality with equal-content mappings are compared with the model; "
         "non-trivial = the history uses two spellings of one key; distinct by construction / case hash")
 ASSUMPTIONS = ["R7: dict keyed by to_str(key).upper(); pop(missing) returns None as declared (S2)",
@@ -17,6 +17,8 @@ ASSUMPTIONS = ["R7: dict keyed by to_str(key).upper(); pop(missing) returns None
 SOFT_S = {"quick": 10, "thorough": 200}
 
 KEYS = ["a", "A", "b", "B", "Ab", "aB", "AB", b"a", b"B", "ß", "ss", "SS", "ı", "i", "x-y", "X-Y",
+        # bytes keys with cased letters outside ASCII (bytes.upper() leaves them alone, str.upper() does not) next to their str spellings
+        "x-grö".encode("utf-8"), "x-grö", "X-GRÖ", "X-GRÖ".encode("utf-8"), "ÿ".encode("utf-8"), "Ÿ", "straße".encode("utf-8"), "STRASSE",
         # names that are in some class's canonical_order (Event, Calendar, Timezone, vRecur), in any case
         "summary", "DTSTART", "exdate", "Rdate", "uid", "version", "PRODID", "method", "tzid", "freq", "UNTIL", "wkst", "byday", "sequence", "dtend"]
 SMALL_KEYS = ["a", "A", "b"]
